@@ -430,8 +430,10 @@ pub fn normalise(spec: &mut RecorderSpec) {
         spec.gecko = None;
     }
     if let Some(g) = &mut spec.gecko {
-        if g.len == 0 || g.len % 65536 == 0 {
-            g.len += 1;
+        // (a list whose length is a multiple of 65536 is legal: its table entry, which keeps only the low 16
+        // bits, is then 0 — the one entry of the table that may be)
+        if g.len == 0 {
+            g.len = 1;
         }
     }
     for e in spec.empty_types.iter_mut() {
@@ -598,7 +600,15 @@ pub fn build(spec: &RecorderSpec) -> Model {
         let mut items: Vec<Vec<u8>> = vec![];
         if has_fend {
             for _ in 0..fs.items {
-                items.push(frame_event(&mut rng, Kind::Item, v, tr(L::CODE_ITEM), spec.special_rate, fs.id, 0, false));
+                let ev = frame_event(&mut rng, Kind::Item, v, tr(L::CODE_ITEM), spec.special_rate, fs.id, 0, false);
+                // an item event may repeat the previous one byte for byte (two identical projectiles, a re-sent event)
+                match items.last() {
+                    Some(prev) if spec.sticky > 0 && rng.below(spec.sticky as u64 + 1) == 0 => {
+                        let p: Vec<u8> = prev.clone();
+                        items.push(p)
+                    }
+                    _ => items.push(ev),
+                }
             }
             let mut ev = frame_event(&mut rng, Kind::FEnd, v, tr(L::CODE_FEND), spec.special_rate, fs.id, 0, false);
             if let (true, Some(p)) = (spec.idle, &last_fend) {
